@@ -37,9 +37,21 @@ type RecRaster struct {
 	Paints         []image.Image // src of every Draw
 	Rects          []image.Rectangle
 	SPs            []image.Point // source point of every Draw
+	Limit          int           // > 0: panic with WorkLimit once the log is that long (a guard for the work monitors)
 }
 
-func (r *RecRaster) add(s string) { r.Log = append(r.Log, s); r.NCalls++ }
+// WorkLimit is the panic value of a recording rasteriser that was given a Limit.
+type WorkLimit struct{}
+
+func (r *RecRaster) add(s string) {
+	// (without a Limit: two million entries — far above anything the suites draw, where every Destination call makes
+	// at most four rasteriser calls; a run-away Renderer would otherwise exhaust the memory of the harness)
+	if (r.Limit > 0 && len(r.Log) >= r.Limit) || len(r.Log) >= 2000000 {
+		panic(WorkLimit{})
+	}
+	r.Log = append(r.Log, s)
+	r.NCalls++
+}
 func (r *RecRaster) Reset(w, h int) {
 	r.w, r.h = w, h
 	r.px, r.py, r.fx, r.fy = 0, 0, 0, 0
